@@ -186,21 +186,26 @@ example : suppressKinds (dumpP id [] [] sampleConst) =
      cs!"/body/1/value/_type=Constant", cs!"/body/1/value/_hash=Constant(value='a', kind='u')",
      cs!"/body/1/value/_pos=1:1-0-", cs!"/body/1/value/value='a'"] := by decide
 
-/-! ## Witnesses of the recorded findings (the code as written vs the documented tweaks) -/
+/-! ## The repaired findings (positive statements) and a witness of the recorded one -/
 
 def asyncDef : Val :=
   .node cs!"AsyncFunctionDef" false [] (some 1)
     [(cs!"name", .scalar cs!"'f'" .str), (cs!"body", .list false []), (cs!"decorator_list", .list false [])]
 
-/-- Finding 9: the code as written (`implCfg`) does not move the body of an `AsyncFunctionDef` last,
-the documented reordering (`specCfg`) does. -/
-theorem C15_async_counterexample :
-    dumpP id [] [] (onTheFly implCfg asyncDef) ≠ dumpP id [] [] (onTheFly specCfg asyncDef) := by decide
+/-- Former finding 9 (repaired by d0d94f6): the code as written moves the body of every definition
+last, `AsyncFunctionDef` included — it is the documented reordering. -/
+theorem C15_async_body_last :
+    implCfg = specCfg ∧
+      dumpP id [] [] (onTheFly implCfg asyncDef) =
+        [cs!"/_type=AsyncFunctionDef", cs!"/_pos=1:", cs!"/name='f'", cs!"/decorator_list/_length=0",
+         cs!"/body/_length=0"] :=
+  ⟨rfl, by decide⟩
 
-/-- Finding 11: the repr-prefix test of `replace_one_constant` disagrees with the real kind for a
-bytes literal whose repr is double-quoted (`b"it's"`): `Num` instead of `Bytes`. -/
-theorem C15_bytes_counterexample :
-    (constantKindOfRepr cs!"b\"it's\"").1 = cs!"Num" ∧ kindTypeName .bytes = cs!"Bytes" := by decide
+/-- Former finding 11 (repaired by c370a5d): the repr-prefix test of `replace_one_constant` agrees
+with the real kind for bytes literals of both spellings (`b'…'` and `b"…"`). -/
+theorem C15_bytes_kind_agrees :
+    (constantKindOfRepr cs!"b\"it's\"").1 = kindTypeName .bytes ∧
+      (constantKindOfRepr cs!"b'ab'").1 = kindTypeName .bytes := by decide
 
 /-- Finding 15: the local clause of `wfKinds` fails for a string containing `/kind=`, and the pass then
 deletes the value line of the constant. -/
